@@ -13,7 +13,7 @@ SOF = (0xC0, 0xC1, 0xC2, 0xC3, 0xC5, 0xC6, 0xC7, 0xC9, 0xCA, 0xCB, 0xCD, 0xCE, 0
 
 def build(tier, seed):
     quick = tier == "quick"
-    T = 90 if quick else 600
+    T = 240 if quick else 600
     obs = []
     # O1: hex payload
     for n in ((1, 2, 3) if quick else (1, 2, 3, 4, 6)):
@@ -106,8 +106,8 @@ def build(tier, seed):
             calls.append((data, fmt, w, h, align))
             return "FIG"
     me.figure_service = Rec()
-    saved = figmod.rtf_read_figure
-    figmod.rtf_read_figure = lambda paths: ([b"img%%d" %% j for j in range(len(paths))], ["png" if j %% 2 == 0 else "jpeg" for j in range(len(paths))])
+    saved = swapped((figmod.rtf_read_figure, lambda paths: ([b"img%%d" %% j for j in range(len(paths))], ["png" if j %% 2 == 0 else "jpeg" for j in range(len(paths))])))
+    saved.__enter__()
     try:
         doc = NS(rtf_figure=NS(figures=["f"] * n, fig_width=W[0] if (scalar_w and lw == 1) else W, fig_height=H, fig_align="right"),
                  rtf_title=None, rtf_subline=None, rtf_footnote=None, rtf_source=None,
@@ -115,7 +115,7 @@ def build(tier, seed):
                  rtf_page_header=None, rtf_page_footer=None)
         out = me._encode_figure_only(doc)
     finally:
-        figmod.rtf_read_figure = saved
+        saved.__exit__()
     exp = [(b"img%%d" %% j, "png" if j %% 2 == 0 else "jpeg", W[min(j, lw - 1)], H[min(j, lh - 1)], "right") for j in range(n)]
     return calls == exp and out.count("FIG") == n and out.count("\\page ") == n - 1
 ''' % nfig,
